@@ -39,6 +39,7 @@ pub fn option<T>(x: &Option<T>, f: impl Fn(&T) -> String) -> String {
 
 /// A cases file: `Definition cs : list <ty> := [...]` + evaluation of `mismatches <chk> 0 cs`.
 pub struct CasesFile {
+    pub prelude: String,
     pub requires: Vec<String>,
     pub ty: String,
     pub chk: String,
@@ -48,6 +49,7 @@ pub struct CasesFile {
 impl CasesFile {
     pub fn new(requires: &[&str], ty: &str, chk: &str) -> Self {
         CasesFile {
+            prelude: String::new(),
             requires: requires.iter().map(|s| s.to_string()).collect(),
             ty: ty.into(),
             chk: chk.into(),
@@ -73,6 +75,9 @@ impl CasesFile {
                 writeln!(s, "From BS Require Import {}.", r).unwrap();
             }
             writeln!(s, "Open Scope N_scope.").unwrap();
+            if !self.prelude.is_empty() {
+                writeln!(s, "{}", self.prelude).unwrap();
+            }
             writeln!(s, "Definition cs : list ({}) := [", self.ty).unwrap();
             for (i, c) in chunk.iter().enumerate() {
                 writeln!(s, "  {}{}", c, if i + 1 < chunk.len() { ";" } else { "" }).unwrap();
